@@ -276,7 +276,8 @@ func c11Eval(cs c11Case) (string, string) {
 	}
 	if cs.Mode == "direct-stall" {
 		got, closed, vd := c11FeedStall(c11Segments(stream, cs.Cuts), c11Stall)
-		return c11Check(elems, got, closed, vd)
+		cl, d := c11Check(elems, got, closed, vd)
+		return c11StallVerdict(closed, cl, d)
 	}
 	got, closed, vd := c11Feed(c11Segments(stream, cs.Cuts))
 	return c11Check(elems, got, closed, vd)
@@ -336,7 +337,23 @@ func c11E2E(elems []c11Elem, stream []byte, cuts []int, stall int64) (string, st
 			reqs = append(reqs, e)
 		}
 	}
+	if stall > 0 {
+		cl, d := c11Check(reqs, got, c.ClosedByPeer(), w.S.Verdict())
+		return c11StallVerdict(c.ClosedByPeer(), cl, d)
+	}
 	return c11Check(reqs, got, c.ClosedByPeer(), w.S.Verdict())
+}
+
+// c11StallVerdict: the statement is about bytes and their segmentation, not about time. A proxy that
+// gives up a connection on which nothing arrived for two hours (and with it the message that was
+// under way) does not contradict it: in the stalled modes "the proxy closed the connection" and "the
+// messages after the stall were not delivered" are don't-cares - as long as everything that WAS
+// delivered is an exact prefix of what was sent (garbled, corrupted or invented messages still count).
+func c11StallVerdict(closed bool, cl, detail string) (string, string) {
+	if closed && (cl == "message-lost" || cl == "connection-closed") {
+		return "", ""
+	}
+	return cl, detail
 }
 
 func c11Run(c *Ctx) {
